@@ -440,6 +440,45 @@ pub async fn connected_pair(bed: &Bed, our_flags: u64, their_flags: u64, timeout
     Ok((conn, p, rec))
 }
 
+/// Connection::connect() against a responder that refuses: `how` 0 = status "nok", 1 = everything conforming except an
+/// acknowledgement digest computed with another cookie, 2 = the peer closes instead of acknowledging.
+/// Returns the Connection (whose connect() failed) and the peer's end of the socket.
+pub async fn refused_pair(bed: &Bed, our_flags: u64, how: u8) -> Result<(edp_client::Connection, PeerConn), String> {
+    let listener = bed.listen("peer").await?;
+    let cfg = edp_client::ConnectionConfig::new("rust@127.0.0.1", "peer@127.0.0.1", "cookie")
+        .with_flags(edp_client::flags::DistributionFlags::new(our_flags))
+        .with_epmd_host("127.0.0.1")
+        .with_timeout(Duration::from_secs(5));
+    let mut conn = edp_client::Connection::new(cfg);
+    let me = default_peer("cookie", u64::MAX);
+    let peer = async {
+        let mut p = listener.accept().await?;
+        p.read_frame(2).await.ok_or("eof before send_name")?;
+        if how == 0 {
+            p.write(&proto::frame2(&proto::status("nok"))).await;
+            return Ok::<_, String>(p);
+        }
+        p.write(&proto::frame2(&proto::status("ok"))).await;
+        p.write(&proto::frame2(&proto::challenge_new(me.flags, me.challenge, me.creation, me.name.as_bytes()))).await;
+        let next = p.read_frame(2).await.ok_or("eof before complement/reply")?;
+        let reply = if next.first() == Some(&b'c') { p.read_frame(2).await.ok_or("eof before reply")? } else { next };
+        let (their_challenge, _digest) = proto::parse_reply(&reply)?;
+        if how == 1 {
+            p.write(&proto::frame2(&proto::ack(&handshake_digest(b"another cookie", their_challenge)))).await;
+        }
+        Ok(p)
+    };
+    let (r, pr) = tokio::join!(conn.connect(), async {
+        let p = peer.await;
+        // how == 2: the caller drops nothing yet; the close happens when the PeerConn is dropped by the caller
+        p
+    });
+    if r.is_ok() {
+        return Err("harness: connect() succeeded against a refusing responder".into());
+    }
+    Ok((conn, pr?))
+}
+
 /// A started Node connected to a conforming scripted peer named peer@127.0.0.1.
 pub async fn node_with_peer(bed: &Bed, their_flags: u64) -> Result<(std::sync::Arc<edp_node::Node>, PeerConn), String> {
     let listener = bed.listen("peer").await?;
